@@ -663,6 +663,20 @@ func c06Eval(c c06Case) (rule, what string, err error) {
 			}
 		}
 	}
+	// (T2) a message carrying a wrong BeginString, wrong CompIDs or an out-of-window SendingTime does not advance the
+	// expected inbound number. The statement's only carve-out is a message in which "such a field" (identity, time) is
+	// missing, empty or malformed; so when all of 8/49/56/52 are readable and one of them is wrong, this holds whatever
+	// MsgSeqNum, PossDupFlag or OrigSendingTime look like
+	if state != "logout" && ty != "A" && loggedOnState(st0) {
+		s, t := c06Comp[c.Sender], c06Comp[c.Target]
+		latency := !c.Cfg.NoCheckLatency && !strings.Contains(state, "recovering")
+		tm := c06Time[c.Time]
+		readable := (s == "ok" || s == "wrong") && (t == "ok" || t == "wrong") && (tm == "now" || tm == "-1h" || tm == "+1h")
+		carries := readable && c.Val == 0 && (c06BS[c.BS] == "other" || s == "wrong" || t == "wrong" || (tm != "now" && latency))
+		if carries && w.T() != T0 {
+			return "C06/T-target-advanced-by-message-with-wrong-identity-or-time got=" + out.class, fmt.Sprintf("expected inbound number %d → %d (reaction %v): %s", T0, w.T(), out.types, c), nil
+		}
+	}
 	return "", "", nil
 }
 
